@@ -271,6 +271,9 @@ impl<A, C: Clock, F: Filter, R, S> Port<'_, Running, A, R, C, F, S> {
                 log::error!(
                     "Responses from multiple devices to peer delay request, disabling port!"
                 );
+                // the request was answered by several devices: its exchange must not
+                // complete (and thereby re-enable the port) later on
+                self.peer_delay_state = PeerDelayState::Empty;
                 self.set_forced_port_state(PortState::Faulty);
                 actions![]
             }
@@ -282,6 +285,9 @@ impl<A, C: Clock, F: Filter, R, S> Port<'_, Running, A, R, C, F, S> {
                 log::error!(
                     "Responses from multiple devices to peer delay request, disabling port!"
                 );
+                // the request was answered by several devices: its exchange must not
+                // complete (and thereby re-enable the port) later on
+                self.peer_delay_state = PeerDelayState::Empty;
                 self.set_forced_port_state(PortState::Faulty);
                 actions![]
             }
@@ -334,6 +340,9 @@ impl<A, C: Clock, F: Filter, R, S> Port<'_, Running, A, R, C, F, S> {
                 log::error!(
                     "Responses from multiple devices to peer delay request, disabling port!"
                 );
+                // the request was answered by several devices: its exchange must not
+                // complete (and thereby re-enable the port) later on
+                self.peer_delay_state = PeerDelayState::Empty;
                 self.set_forced_port_state(PortState::Faulty);
                 actions![]
             }
@@ -345,6 +354,9 @@ impl<A, C: Clock, F: Filter, R, S> Port<'_, Running, A, R, C, F, S> {
                 log::error!(
                     "Responses from multiple devices to peer delay request, disabling port!"
                 );
+                // the request was answered by several devices: its exchange must not
+                // complete (and thereby re-enable the port) later on
+                self.peer_delay_state = PeerDelayState::Empty;
                 self.set_forced_port_state(PortState::Faulty);
                 actions![]
             }
